@@ -12,7 +12,7 @@ def table : Table :=
     ⟨"Group.blend_mode.setter", [[.mutate "self" "blend_mode" ["g1:_value == BlendMode.PASS_THROUGH"], .mutate "self" "blend_mode" ["g1:not(_value == BlendMode.PASS_THROUGH)"], .mutate "self" "blend_mode" ["g2:self._setting is not None"], .recomp "self" []]]⟩,
     ⟨"Group.new", [[.mutate "group.parent" "_layers.remove" ["g1:parent is not None and isinstance(parent, GroupMixin)", "g3:group.parent is not None and isinstance(group.parent, GroupMixin)", "g4:group in group.parent"], .recomp "group.parent" ["g1:parent is not None and isinstance(parent, GroupMixin)", "g3:group.parent is not None and isinstance(group.parent, GroupMixin)", "g4:group in group.parent"], .mutate "parent" "_layers.extend" ["g1:parent is not None and isinstance(parent, GroupMixin)"], .recomp "parent" ["g1:parent is not None and isinstance(parent, GroupMixin)"]]]⟩,
     ⟨"Group.group_layers", [[.mutate "layer.parent" "_layers.remove" ["g5:layer.parent is not None and isinstance(layer.parent, GroupMixin)", "g6:layer in layer.parent"], .recomp "layer.parent" ["g5:layer.parent is not None and isinstance(layer.parent, GroupMixin)", "g6:layer in layer.parent"], .mutate "group" "_layers.extend" [], .recomp "group" []],
-      [.mutate "layers[0].parent" "_layers.extend" ["g26:isinstance(layers[0].parent, GroupMixin)"], .recomp "layers[0].parent" ["g26:isinstance(layers[0].parent, GroupMixin)"]]]⟩,
+      [.mutate "layers[0].parent" "_layers.extend" ["g27:isinstance(layers[0].parent, GroupMixin)"], .recomp "layers[0].parent" ["g27:isinstance(layers[0].parent, GroupMixin)"]]]⟩,
     ⟨"GroupMixin.__setitem__", [[.mutate "self" "_layers.__setitem__" [], .recomp "self" []]]⟩,
     ⟨"GroupMixin.__delitem__", [[.mutate "self" "_layers.__delitem__" [], .recomp "self" []]]⟩,
     ⟨"GroupMixin.append", [[.mutate "self" "_layers.extend" [], .recomp "self" []]]⟩,
